@@ -553,6 +553,67 @@ def c_identity(ctx, case):
                              f"field {n1} of {G.src(e)} did not change but was rebuilt")
 
 
+@check("C04.override")
+def c_override(ctx, case):
+    """A subclass that overrides ONE handler of a stock traversal is entered for exactly the
+    occurrences whose class names that handler -- not for sibling node types that merely share
+    an implementation in the base class (map_floor_div / map_remainder next to map_quotient)."""
+    (e,) = case
+    occ = [o for o in occurrences(e) if isinstance(o, p.Expression)]
+    names = sorted({type(o).mapper_method for o in occ if isinstance(getattr(type(o), "mapper_method", None), str)})
+    for base in (IdentityMapper, CombineCounter):
+        for M in names:
+            if not callable(getattr(base, M, None)):
+                continue
+            calls = []
+
+            def h(self, expr, *a, _M=M, _base=base, **k):
+                calls.append(type(expr))
+                return getattr(_base, _M)(self, expr, *a, **k)
+            cls = type(f"Only_{M}", (base,), {M: h})
+            ctx.case(None)
+            ctx.count("single_handler_overrides")
+            try:
+                cls()(e)
+            except REFUSAL:
+                continue
+            except RecursionError:
+                raise
+            except Exception as ex:  # noqa: BLE001
+                ctx.fail("C04.override", case, f"override:raised:{type(ex).__name__}",
+                         f"{base.__name__} subclass overriding only {M} on {G.src(e)}: {ex}")
+                continue
+            want = Counter(type(o).__name__ for o in occ if _resolved(o, cls) == M)
+            got = Counter(t.__name__ for t in calls)
+            if got != want:
+                ctx.fail("C04.override", case, f"override:{base.__name__}:{M}",
+                         f"{base.__name__} subclass overriding only {M} over {G.src(e)}: the override "
+                         f"was entered for {dict(got)}, the tree has {dict(want)} occurrences whose "
+                         f"class names that handler")
+
+
+def _resolved(o, mapper_cls):
+    """handler name by the documented rule: the node's own, else the nearest ancestor's that
+    the mapper implements"""
+    for c in type(o).__mro__:
+        name = c.__dict__.get("mapper_method", None) if "mapper_method" in c.__dict__ \
+            else getattr(c, "mapper_method", None)
+        if isinstance(name, str) and callable(getattr(mapper_cls, name, None)):
+            return name
+    return None
+
+
+class CombineCounter(CombineMapper):
+    def combine(self, values):
+        return sum(values)
+
+    def map_constant(self, expr, *a, **k):
+        return 1
+
+    map_variable = map_nan = map_wildcard = map_dot_wildcard = map_star_wildcard = \
+        map_function_symbol = map_constant
+
+
 def _tagger(base):
     class Tagger(base):
         def map_variable(self, expr, *a, **k):
@@ -715,6 +776,11 @@ def rich_tree(rng, g, d):
         return MultiVector({0: g.gen(d - 1), 1: p.Variable("x"), 3: g.gen(1)}, Space(2))
     if u < 0.22:
         return Polynomial(p.Variable("x"), ((0, g.gen(d - 1)), (2, p.Variable("y"))))
+    if u < 0.30:    # a wrapper SUBCLASS carrying an extra constructor property
+        from ..usertypes import TaggedCSE
+        inner = p.Sum((g.gen(d - 1), p.Variable(rng.choice("xy"))))
+        return p.Product((TaggedCSE(inner, rng.choice([None, "w"]), p.cse_scope.EVALUATION,
+                                    rng.choice(["t1", "t2"])), g.gen(1)))
     return g.gen(d)
 
 
@@ -804,6 +870,8 @@ def workload(ctx):
                 calls = [(rng.choice([(), ("p",), ("q",)]), {"tag": t} if rng.random() < 0.8 else {})
                          for t in tags]
                 ctx.run("C04.argflow", (e, calls))
+            if isinstance(e, p.Expression) and i % 4 == 1:
+                ctx.run("C04.override", (e,))
             nstop = rng.choice([0, 0, 1, 2])
             ctx.run("C04.walk", (e, args, kw, tuple(rng.randrange(10**6) for _ in range(nstop))))
             ctx.run("C04.identity", (e, args, kw))
